@@ -22,14 +22,32 @@ Definition commit (c : cons) (len : N) (in_flight : bool) : cons :=
   mkcons (cl c - len) (if in_flight then sq c - len else sq c).       (* saturating_sub *)
 Definition is_available (c : cons) : bool := 0 <? cl c.
 
-(* ---- one packet ---- *)
-Definition assemble (minpkt : N) (c : cons) (buf want : N) : cons * N :=
+(* ---- one packet = PacketsAssembler::assemble: constrain, new_packet, commit(sent, in_flight) ----
+   `fl` = the packet is in flight (false: only Padding / Ack / ConnectionClose frames, Constraints::commit then
+   leaves the send quota alone - but always charges the credit) *)
+Definition assemble (minpkt : N) (c : cons) (buf want : N) (fl : bool) : cons * N :=
   let room := constrain c buf in
   let sent := if (0 <? want) && (minpkt <=? room) then N.min want room else 0 in
-  (if 0 <? sent then commit c sent true else c, sent).
+  (if 0 <? sent then commit c sent fl else c, sent).
 
-(* ---- one segment = Burst::load_spaces ---- *)
-Record segreq := mkseg { sg_quota : N; sg_wi : N; sg_wo : N }.
+(* ---- one segment = Burst::load_spaces ----
+   a packet request = (bytes the space wants to write, in-flight flag); the Initial space first, then the other
+   spaces in order (0-RTT, Handshake, 1-RTT), all through ONE Constraints value *)
+Record pktreq := mkpk { pk_want : N; pk_fl : bool }.
+Record segreq := mksegp { sg_quota : N; sg_ini : pktreq; sg_rest : list pktreq }.
+Definition sg_wi (r : segreq) : N := pk_want (sg_ini r).
+(* the two-request form of stream op BURST: Initial wants wi, the other spaces together want wo, all in flight *)
+Definition mkseg (q wi wo : N) : segreq := mksegp q (mkpk wi true) [mkpk wo true].
+
+(* the packets after the Initial one: each constrained by what the previous ones left; returns the bytes written *)
+Fixpoint assemble_all (minpkt : N) (c : cons) (buf : N) (ps : list pktreq) : cons * N :=
+  match ps with
+  | [] => (c, 0)
+  | p :: t =>
+      let '(c1, s1) := assemble minpkt c buf (pk_want p) (pk_fl p) in
+      let '(c2, s2) := assemble_all minpkt c1 (buf - s1) t in
+      (c2, s1 + s2)
+  end.
 
 Inductive seg_res := SegSignals | SegDeact | SegOk (n : N) | SegPanic.
 
@@ -40,9 +58,9 @@ Definition load_segment (minpkt : N) (b : bres) (buf : N) (r : segreq) : seg_res
   | BPanic => SegPanic
   | BSome credit =>
       let c0 := mkcons credit (sg_quota r) in
-      let '(c1, s1) := assemble minpkt c0 buf (sg_wi r) in
+      let '(c1, s1) := assemble minpkt c0 buf (sg_wi r) (pk_fl (sg_ini r)) in
       let loaded_initial := 0 <? s1 in
-      let '(_, s2) := assemble minpkt c1 (buf - s1) (sg_wo r) in
+      let '(_, s2) := assemble_all minpkt c1 (buf - s1) (sg_rest r) in
       if loaded_initial then SegOk buf                   (* padded to the whole buffer, credit not consulted *)
       else if 0 <? s1 + s2 then SegOk (s1 + s2) else SegSignals
   end.
@@ -89,7 +107,9 @@ Inductive aa_op :=
 Inductive aa_out :=
 | XPlain
 | XBurst (o : burst_out)
-| XPoll (ready : bool) (wk : N).
+| XPoll (ready : bool) (wk : N)
+| XRace (na nb : N) (ra rb : mpc)
+| XStress (sent : N).
 
 Definition aa_exec (minpkt : N) (a : aa) (o : aa_op) : aa * aa_out :=
   match o with
@@ -110,20 +130,59 @@ Definition print_bres (b : bres) : list Z :=
   | BPanic => [-7; 0]
   end%Z.
 
+Definition print_mpc (p : mpc) : list Z :=
+  match p with
+  | PDone RUnit => [3; 0]
+  | PDone (RBal b) => print_bres b
+  | _ => [-8; 0]                       (* not finished: excluded by race_finishes *)
+  end%Z.
+
 Definition print_aa_out (o : aa_out) : list Z :=
   match o with
   | XPlain => []
   | XBurst bo => [Z.of_N (bo_status bo); Z.of_N (lenN (bo_lens bo))] ++ map Z.of_N (bo_lens bo) ++ [Z.of_N (bo_sum bo)]
   | XPoll r w => [if r then 1%Z else 0%Z; Z.of_N w]
+  | XRace na nb ra rb => [Z.of_N na; Z.of_N nb] ++ print_mpc ra ++ print_mpc rb
+  | XStress sent => [Z.of_N sent]
+  end.
+
+(* ---- the operations of the stream: the sequential ones above, and two that involve a second thread ---- *)
+Definition STRESS_MAX_ARRIVALS : N := 200000.
+Definition STRESS_MAX_AMOUNT : N := 65535.
+
+Inductive aa_xop :=
+| XSeq (o : aa_op)
+| XRaceOp (ca cb : mcall) (sched : list bool)     (* two calls on two threads, one atomic operation at a time *)
+| XStressOp (narr amt : N).                       (* narr arrivals of amt bytes on one thread while a disciplined sender
+                                                     (sends exactly what balance() grants, reports it at once) runs on
+                                                     another; afterwards the sender drains what is left *)
+
+(* whatever the interleaving, a disciplined sender ends up having sent the credit there was plus 3 x the arrivals,
+   and nothing is left (unvalidated path; the counter is assumed not to overflow); a granted / aborted path: nothing
+   is counted *)
+Definition stress (a : aa) (narr amt : N) : aa * N :=
+  let narr := N.min narr STRESS_MAX_ARRIVALS in
+  let amt := N.min amt STRESS_MAX_AMOUNT in
+  if st a =? 0 then
+    let a1 := if 0 <? narr then wake_credit a else a in
+    (set_credit a1 0, credit a + FACTOR * (narr * amt))
+  else (a, 0).
+
+Definition aa_xexec (minpkt : N) (a : aa) (o : aa_xop) : aa * aa_out :=
+  match o with
+  | XSeq o => aa_exec minpkt a o
+  | XRaceOp ca cb sched =>
+      let '(a', pa, pb, na, nb) := race_calls a ca cb sched in (a', XRace na nb pa pb)
+  | XStressOp narr amt => let '(a', sent) := stress a narr amt in (a', XStress sent)
   end.
 
 (* every observation ends with the result of a balance() call (which is part of the history) *)
-Definition aa_step (minpkt : N) (a : aa) (o : aa_op) : aa * list Z :=
-  let '(a1, out) := aa_exec minpkt a o in
+Definition aa_step (minpkt : N) (a : aa) (o : aa_xop) : aa * list Z :=
+  let '(a1, out) := aa_xexec minpkt a o in
   let '(a2, b) := balance a1 in
   (a2, print_aa_out out ++ print_bres b).
 
-Fixpoint aa_run (minpkt : N) (a : aa) (ops : list aa_op) : list (list Z) :=
+Fixpoint aa_run (minpkt : N) (a : aa) (ops : list aa_xop) : list (list Z) :=
   match ops with
   | [] => []
   | o :: rest => let '(a', obs) := aa_step minpkt a o in obs :: aa_run minpkt a' rest
@@ -135,19 +194,38 @@ Fixpoint decode_segs (args : list Z) : list segreq :=
   | _ => []
   end.
 
-Definition aa_decode (t : N) (args : list Z) : option aa_op :=
+(* BURSTP: per segment `quota w0 f0 w1 f1 w2 f2 w3 f3` - four packet requests (Initial, 0-RTT, Handshake, 1-RTT)
+   with their in-flight flags *)
+Definition zflag (z : Z) : bool := negb (z =? 0)%Z.
+Fixpoint decode_psegs (args : list Z) : list segreq :=
+  match args with
+  | q :: w0 :: f0 :: w1 :: f1 :: w2 :: f2 :: w3 :: f3 :: rest =>
+      mksegp (Z.to_N q) (mkpk (Z.to_N w0) (zflag f0))
+             [mkpk (Z.to_N w1) (zflag f1); mkpk (Z.to_N w2) (zflag f2); mkpk (Z.to_N w3) (zflag f3)]
+        :: decode_psegs rest
+  | _ => []
+  end.
+
+Definition decode_call (k n : Z) : mcall :=
+  (if k =? 0 then CRcvd (Z.to_N n) else if k =? 1 then CBalance else if k =? 2 then CSent (Z.to_N n)
+   else if k =? 3 then CGrant else if k =? 4 then CAbort else CNop)%Z.
+
+Definition aa_decode (t : N) (args : list Z) : option aa_xop :=
   match t, args with
-  | 0, [n] => Some (ARcvd (Z.to_N n))
-  | 1, [] => Some ABalance
-  | 2, [n] => Some (AOnSent (Z.to_N n))
-  | 3, [] => Some AGrant
-  | 4, [] => Some AAbort
-  | 5, mtu :: rsv :: segs => Some (ABurst (Z.to_N mtu) (Z.to_N rsv) (decode_segs segs))
-  | 6, [] => Some APollWait
+  | 0, [n] => Some (XSeq (ARcvd (Z.to_N n)))
+  | 1, [] => Some (XSeq ABalance)
+  | 2, [n] => Some (XSeq (AOnSent (Z.to_N n)))
+  | 3, [] => Some (XSeq AGrant)
+  | 4, [] => Some (XSeq AAbort)
+  | 5, mtu :: rsv :: segs => Some (XSeq (ABurst (Z.to_N mtu) (Z.to_N rsv) (decode_segs segs)))
+  | 6, [] => Some (XSeq APollWait)
+  | 7, mtu :: rsv :: segs => Some (XSeq (ABurst (Z.to_N mtu) (Z.to_N rsv) (decode_psegs segs)))
+  | 8, ka :: na :: kb :: nb :: sched => Some (XRaceOp (decode_call ka na) (decode_call kb nb) (map zflag sched))
+  | 9, [narr; amt] => Some (XStressOp (Z.to_N narr) (Z.to_N amt))
   | _, _ => None
   end.
 
-Fixpoint aa_decode_all (l : list (N * list Z)) : list aa_op :=
+Fixpoint aa_decode_all (l : list (N * list Z)) : list aa_xop :=
   match l with
   | [] => []
   | (t, a) :: rest =>
